@@ -135,7 +135,7 @@ def evaluate(ctx, scs):
 
 def run(ctx):
     ctx.check_theorems("ActsModel.Props.C02")
-    scs = matrix()
+    scs = ctx.corpus() + matrix()
     n = 300 if ctx.tier == "quick" else 6000
     scs += randoms(ctx.seed, n)
     scs += reloads(ctx.seed, 40 if ctx.tier == "quick" else 600)
